@@ -10,7 +10,8 @@
    filter, every iteration order. *)
 From Coq Require Import ZArith List Bool Permutation Sorted.
 From Verif Require Import Annotate.Model Annotate.SortProofs Annotate.Plans Annotate.Determinism
-  C11.Spec C11.Proofs C11.Exact C11.TimeTravel C11.Generic C11.FindVisibleSpec C12.Proofs.
+  Annotate.Date Annotate.GenOk C11.Spec C11.Proofs C11.Exact C11.TimeTravel C11.Generic C11.FindVisibleSpec C12.Proofs.
+From VerifGen Require Import GenAnnotate.
 Import ListNotations.
 Open Scope Z_scope.
 
@@ -344,6 +345,25 @@ Proof.
   - eexists. split; [right; left; reflexivity|]. unfold cand, in_win. vm_compute.
     repeat split; try discriminate. right. reflexivity.
 Qed.
+
+(* 15. tie by translation: the decision functions regenerated from /repo's Go source on every run
+       (coq/gen/GenAnnotate.v, translator/cmd/annotate) ARE the hand model the theorems above are
+       about: timeThreshold, timeThresholdParent, ChildList.FindVisible, ChildList.VersionBefore,
+       nextVersionIndex (VersionIndex as Z), updateTimestamp, Child.Update (Index 0),
+       updatesSortIndex.Less, and the time.Date literal of osm.CommitInfoStart. *)
+Theorem C11_generated_code_is_model :
+  (forall a b, gen_less_index a b = less a b) /\
+  (forall cis ts com, gen_update_timestamp cis ts com = update_timestamp cis ts com) /\
+  (forall cis c, gen_child_update cis c = child_update cis c 0%nat) /\
+  (forall cis c esp, gen_time_threshold cis c esp = time_threshold cis c esp) /\
+  (forall cis p esp, gen_time_threshold_parent cis p esp = time_threshold_parent cis p esp) /\
+  (forall cis cl cid at_ eps, gen_find_visible cis cl cid at_ eps = find_visible cis cl cid at_ eps) /\
+  (forall cis cl end_, gen_version_before cis cl end_ = version_before cis cl end_) /\
+  (forall cis current cl np o,
+     gen_next_version_index cis current cl np o = res_map Z.of_nat (next_version_index cis current cl np o)) /\
+  unix_nanos gen_commit_info_start_args = Some 1347442203000000000.
+Proof. exact generated_code_is_model. Qed.
+Print Assumptions C11_generated_code_is_model.
 
 (* ---- non-vacuity: the witness history of C12/Proofs.v (node 100: v1 before the way, v2 and v3
    in the same second after it; commit-time regime) ---- *)
